@@ -200,7 +200,7 @@ func whArgs(u iuses) string {
 	if u.H {
 		s += " H"
 	}
-	return s
+	return s + impAbsArgs
 }
 
 func whParams(u iuses) string {
@@ -211,7 +211,7 @@ func whParams(u iuses) string {
 	if u.H {
 		s += " (H : Bytes → Bytes)"
 	}
-	return s
+	return s + impAbsParams
 }
 
 // value of the lhs path after `lhs = val`: (root variable, its new value)
@@ -1087,4 +1087,23 @@ func (f *impFn) forStmt(v *ast.ForStmt, rest []ast.Stmt, k *kont, c *ictx, ind s
 		return head + ind + "let " + st + " := " + callTxt + "\n" + f.seq(rest, k, c, ind, v, top)
 	}
 	return head + ind + "match " + callTxt + " with\n" + ind + "| (" + st + ", some ret_) => " + c.ret("ret_") + "\n" + ind + "| (" + st + ", none) =>\n" + f.seq(rest, k, c, ind, v, top)
+}
+
+// roots of everything assigned anywhere in the node (no liveness filter)
+func (f *impFn) assignedAnywhere(n ast.Node) []string {
+	var out []string
+	ast.Inspect(n, func(m ast.Node) bool {
+		switch s := m.(type) {
+		case *ast.AssignStmt:
+			if s.Tok == token.ASSIGN {
+				for _, l := range s.Lhs {
+					out = append(out, rootOf(l))
+				}
+			}
+		case *ast.IncDecStmt:
+			out = append(out, rootOf(s.X))
+		}
+		return true
+	})
+	return out
 }
